@@ -7,6 +7,7 @@
 -/
 import Kskm.Ceremony
 import KskmProofs.Lemmas.TokM
+import KskmProofs.Lemmas.NoSign
 namespace Kskm.C03
 
 /-! ## Events -/
@@ -56,9 +57,8 @@ theorem wf_stageConfirm (a : CeremonyArgs) : WriteFree (stageConfirm a) := by
   · exact wf_pure _
   · exact wf_bind _ _ (wf_emit _ rfl) (fun _ => wf_pure _)
 
-/-- **Everything before the last step is write-free**, for every token and every outcome. -/
-theorem core_writeFree (ext : Externals) (a : CeremonyArgs) : WriteFree (ksrsignerCore ext a) := by
-  unfold ksrsignerCore
+theorem preSign_writeFree (ext : Externals) (a : CeremonyArgs) : WriteFree (preSign ext a) := by
+  unfold preSign
   split
   · exact wf_pure _
   · refine wf_bind _ _ (wf_lift _) (fun skr => ?_)
@@ -71,11 +71,22 @@ theorem core_writeFree (ext : Externals) (a : CeremonyArgs) : WriteFree (ksrsign
       · refine wf_bind _ _ (wf_liftTok _) (fun _ => ?_)
         refine wf_bind _ _ (wf_emit _ rfl) (fun _ => ?_)
         refine wf_bind _ _ (wf_stageConfirm a) (fun go => ?_)
-        split
-        · exact wf_pure _
-        · refine wf_bind _ _ (wf_liftTok _) (fun newSkr => ?_)
-          refine wf_bind _ _ (wf_lift _) (fun _ => ?_)
-          exact wf_bind _ _ (wf_lift _) (fun _ => wf_pure _)
+        split <;> exact wf_pure _
+
+theorem signStage_writeFree (ext : Externals) (a : CeremonyArgs) (p : PreSign) :
+    WriteFree (signStage ext a p) := by
+  unfold signStage
+  refine wf_bind _ _ (wf_liftTok _) (fun newSkr => ?_)
+  refine wf_bind _ _ (wf_lift _) (fun _ => ?_)
+  exact wf_bind _ _ (wf_lift _) (fun _ => wf_pure _)
+
+/-- **Everything before the last step is write-free**, for every token and every outcome. -/
+theorem core_writeFree (ext : Externals) (a : CeremonyArgs) : WriteFree (ksrsignerCore ext a) := by
+  unfold ksrsignerCore
+  refine wf_bind _ _ (preSign_writeFree ext a) (fun x => ?_)
+  split
+  · exact wf_pure _
+  · exact wf_bind _ _ (signStage_writeFree ext a _) (fun _ => wf_pure _)
 
 /-! ## The write happens exactly on success -/
 
@@ -238,13 +249,15 @@ theorem stageChain_ok (a : CeremonyArgs) (req : Request) (last : Response) (mods
   obtain ⟨h4, _⟩ := TokM_lift_bind_ok _ _ _ _ _ _ h
   exact ⟨h1, h2, h3, h4⟩
 
-/-- **A write implies every gate.** For every token (every fault position and kind): if the core
-    hands an SKR to the final write then the KSR passed validation, the previous SKR (if any) passed
-    its validation and the chain checks, the operator confirmed (or the run was forced), and the
-    publish / retire checks on the new SKR passed. -/
-theorem core_some_implies_gates (ext : Externals) (a : CeremonyArgs) (t : Token) (s s' : CerState)
-    (skr : Response) (h : ksrsignerCore ext a t s = (.ok (some skr), s')) : Gates ext a t skr := by
-  unfold ksrsignerCore at h
+/-- what a `some` result of the stages before signing implies -/
+theorem preSign_some (ext : Externals) (a : CeremonyArgs) (t : Token) (s s' : CerState) (p : PreSign)
+    (h : preSign ext a t s = (.ok (some p), s')) :
+    a.actions = some p.actions ∧ a.ksr = some (.ok p.req) ∧
+    validateRequest ext.verify a.now p.req a.requestPolicy = .ok () ∧
+    stagePrev ext a = .ok p.skr ∧
+    (∃ ts ts', stageChain a p.req p.skr p.mods t ts = (.ok (), ts')) ∧
+    (a.force = true ∨ confirmed a.answer = true) := by
+  unfold preSign at h
   have hact_cases : a.actions = none ∨ ∃ x, a.actions = some x := by cases a.actions <;> simp
   rcases hact_cases with hact | ⟨actions, hact⟩
   · simp [hact, pure] at h
@@ -278,62 +291,79 @@ theorem core_some_implies_gates (ext : Externals) (a : CeremonyArgs) (t : Token)
     cases go with
     | false => simp [pure] at h6
     | true =>
-          simp only [Bool.not_true, Bool.false_eq_true, ↓reduceIte] at h6
-          obtain ⟨newSkr, s7, hcreate, h7⟩ := CerM.bind_ok _ _ _ _ _ _ h6
-          clear h6
-          obtain ⟨u3, s8, hpost0, h8⟩ := CerM.bind_ok _ _ _ _ _ _ h7
-          clear h7
-          obtain ⟨hpost, rfl⟩ := lift_ok _ _ _ _ _ hpost0
-          clear hpost0
-          obtain ⟨u4, s9, hser0, h9⟩ := CerM.bind_ok _ _ _ _ _ _ h8
-          clear h8
-          obtain ⟨hser, rfl⟩ := lift_ok _ _ _ _ _ hser0
-          clear hser0
-          have h8 := h9
-          simp only [pure, Prod.mk.injEq, Except.ok.injEq, Option.some.injEq] at h8
-          obtain ⟨rfl, _⟩ := h8
-          have hconf : a.force = true ∨ confirmed a.answer = true := by
-            unfold stageConfirm at hgo
-            by_cases hf : a.force = true
-            · left; exact hf
-            · right
-              simp only [hf, Bool.false_eq_true, ↓reduceIte] at hgo
-              obtain ⟨_, _, _, hgo2⟩ := CerM.bind_ok _ _ _ _ _ _ hgo
-              simp only [pure, Prod.mk.injEq, Except.ok.injEq] at hgo2
-              exact hgo2.1
-          have hchain' : stageChain a req prevO mods t s3.tok = (.ok u, s4.tok) := by
-            simp only [CerM.liftTok, Prod.mk.injEq] at hchain
-            obtain ⟨hc1, hc2⟩ := hchain
-            rw [← hc2]
-            exact Prod.ext hc1 rfl
-          refine ⟨⟨actions, req, hact, hksr, hval⟩, ?_, ?_, hconf, ?_, by cases u4; exact hser, ?_⟩
-          · intro r' hr'
-            rcases stagePrev_ok ext a prevO hp with ⟨hn, _⟩ | ⟨last, hl, _, hv⟩
-            · rw [hn] at hr'; simp at hr'
-            · rw [hl] at hr'
-              simp only [Option.some.injEq] at hr'
-              exact ⟨last, hr'.symm, hv⟩
-          · intro last req' hl hk'
-            rw [hksr] at hk'
-            simp only [Option.some.injEq, Except.ok.injEq] at hk'
-            subst hk'
-            rcases stagePrev_ok ext a prevO hp with ⟨hn, _⟩ | ⟨last', hl', ho, _⟩
-            · rw [hn] at hl; simp at hl
-            · rw [hl'] at hl
-              simp only [Option.some.injEq, Except.ok.injEq] at hl
-              subst hl; subst ho
-              cases u
-              exact stageChain_ok a req last' mods t s3.tok s4.tok hchain'
-          · intro last hl
-            rcases stagePrev_ok ext a prevO hp with ⟨hn, _⟩ | ⟨last', hl', ho, _⟩
-            · rw [hn] at hl; simp at hl
-            · rw [hl'] at hl
-              simp only [Option.some.injEq, Except.ok.injEq] at hl
-              subst hl; subst ho
-              simpa [stagePost] using hpost
-          · simp only [CerM.liftTok, Prod.mk.injEq] at hcreate
-            obtain ⟨hc1, hc2⟩ := hcreate
-            exact ⟨actions, req, mods, s6.tok, _, hact, hksr, Prod.ext hc1 rfl⟩
+      simp only [Bool.not_true, Bool.false_eq_true, ↓reduceIte, pure, Prod.mk.injEq, Except.ok.injEq,
+        Option.some.injEq] at h6
+      obtain ⟨rfl, _⟩ := h6
+      have hconf : a.force = true ∨ confirmed a.answer = true := by
+        unfold stageConfirm at hgo
+        by_cases hf : a.force = true
+        · left; exact hf
+        · right
+          simp only [hf, Bool.false_eq_true, ↓reduceIte] at hgo
+          obtain ⟨_, _, _, hgo2⟩ := CerM.bind_ok _ _ _ _ _ _ hgo
+          simp only [pure, Prod.mk.injEq, Except.ok.injEq] at hgo2
+          exact hgo2.1
+      refine ⟨hact, hksr, hval, hp, ?_, hconf⟩
+      simp only [CerM.liftTok, Prod.mk.injEq] at hchain
+      obtain ⟨hc1, hc2⟩ := hchain
+      cases u
+      exact ⟨s3.tok, _, Prod.ext hc1 rfl⟩
+
+/-- **A write implies every gate.** For every token (every fault position and kind): if the core
+    hands an SKR to the final write then the KSR passed validation, the previous SKR (if any) passed
+    its validation and the chain checks, the operator confirmed (or the run was forced), and the
+    publish / retire checks on the new SKR passed. -/
+theorem core_some_implies_gates (ext : Externals) (a : CeremonyArgs) (t : Token) (s s' : CerState)
+    (skr : Response) (h : ksrsignerCore ext a t s = (.ok (some skr), s')) : Gates ext a t skr := by
+  unfold ksrsignerCore at h
+  obtain ⟨x, s1, hpre, h1⟩ := CerM.bind_ok _ _ _ _ _ _ h
+  clear h
+  cases x with
+  | none => simp [pure] at h1
+  | some p =>
+    simp only at h1
+    obtain ⟨newSkr, s2, hsign, h2⟩ := CerM.bind_ok _ _ _ _ _ _ h1
+    clear h1
+    simp only [pure, Prod.mk.injEq, Except.ok.injEq, Option.some.injEq] at h2
+    obtain ⟨rfl, _⟩ := h2
+    obtain ⟨hact, hksr, hval, hp, ⟨ts, ts', hchain⟩, hconf⟩ := preSign_some ext a t s s1 p hpre
+    unfold signStage at hsign
+    obtain ⟨created, s3, hcreate, h3⟩ := CerM.bind_ok _ _ _ _ _ _ hsign
+    obtain ⟨u3, s4, hpost0, h4⟩ := CerM.bind_ok _ _ _ _ _ _ h3
+    obtain ⟨hpost, rfl⟩ := lift_ok _ _ _ _ _ hpost0
+    obtain ⟨u4, s5, hser0, h5⟩ := CerM.bind_ok _ _ _ _ _ _ h4
+    obtain ⟨hser, rfl⟩ := lift_ok _ _ _ _ _ hser0
+    simp only [pure, Prod.mk.injEq, Except.ok.injEq] at h5
+    obtain ⟨rfl, _⟩ := h5
+    refine ⟨⟨p.actions, p.req, hact, hksr, hval⟩, ?_, ?_, hconf, ?_, by cases u4; exact hser, ?_⟩
+    · intro r' hr'
+      rcases stagePrev_ok ext a p.skr hp with ⟨hn, _⟩ | ⟨last, hl, _, hv⟩
+      · rw [hn] at hr'; simp at hr'
+      · rw [hl] at hr'
+        simp only [Option.some.injEq] at hr'
+        exact ⟨last, hr'.symm, hv⟩
+    · intro last req' hl hk'
+      rw [hksr] at hk'
+      simp only [Option.some.injEq, Except.ok.injEq] at hk'
+      subst hk'
+      rcases stagePrev_ok ext a p.skr hp with ⟨hn, _⟩ | ⟨last', hl', ho, _⟩
+      · rw [hn] at hl; simp at hl
+      · rw [hl'] at hl
+        simp only [Option.some.injEq, Except.ok.injEq] at hl
+        subst hl
+        rw [ho] at hchain
+        exact stageChain_ok a p.req last' p.mods t ts ts' hchain
+    · intro last hl
+      rcases stagePrev_ok ext a p.skr hp with ⟨hn, _⟩ | ⟨last', hl', ho, _⟩
+      · rw [hn] at hl; simp at hl
+      · rw [hl'] at hl
+        simp only [Option.some.injEq, Except.ok.injEq] at hl
+        subst hl
+        rw [ho] at hpost
+        simpa [stagePost] using hpost
+    · simp only [CerM.liftTok, Prod.mk.injEq] at hcreate
+      obtain ⟨hc1, hc2⟩ := hcreate
+      exact ⟨p.actions, p.req, p.mods, s1.tok, _, hact, hksr, Prod.ext hc1 rfl⟩
 
 /-- **C03, main statement.** For every token oracle — i.e. whatever fault is injected at whatever
     position of the token-operation sequence — every verifier and hash function, every request,
@@ -364,6 +394,122 @@ theorem fault_anywhere (ext : Externals) (a : CeremonyArgs) (t' : Token) (s : Ce
     exact ⟨hok, skr, by rw [hwr, hs], core_some_implies_gates ext a t' s s1 skr hc⟩
   · left
     exact ⟨hok, by rw [unsuccessful_writes_nothing ext a t' s hok, hs]⟩
+
+/-! ## Failure before the signing stage: no private-key operation at all -/
+
+/-- every token operation a ceremony computation issues satisfies `P` (whatever the outcome) -/
+def CEmits {α} (P : TokOp → Prop) (m : CerM α) : Prop :=
+  ∀ t s, ∃ l : List (TokOp × TokAns), (m t s).2.tok.log = l ++ s.tok.log ∧ ∀ e ∈ l, P e.1
+
+theorem ce_pure {α} {P} (a : α) : CEmits P (pure a : CerM α) := fun _ _ => ⟨[], rfl, by simp⟩
+theorem ce_lift {α} {P} (r : Res α) : CEmits P (CerM.lift r) := fun _ _ => ⟨[], rfl, by simp⟩
+theorem ce_emit {P} (e : Event) : CEmits P (CerM.emit e) := fun _ _ => ⟨[], rfl, by simp⟩
+theorem ce_liftTok {α} {P} (m : TokM α) (h : Emits P m) : CEmits P (CerM.liftTok m) := by
+  intro t s
+  obtain ⟨l, e, _, p⟩ := h t s.tok
+  exact ⟨l, e, p⟩
+
+theorem ce_bind {α β} {P} (m : CerM α) (f : α → CerM β) (hm : CEmits P m) (hf : ∀ a, CEmits P (f a)) :
+    CEmits P (m >>= f) := by
+  intro t s
+  obtain ⟨l1, e1, p1⟩ := hm t s
+  simp only [bind]
+  cases hr : m t s with
+  | mk r s1 =>
+    rw [hr] at e1
+    cases r with
+    | error e => exact ⟨l1, e1, p1⟩
+    | ok a =>
+      obtain ⟨l2, e2, p2⟩ := hf a t s1
+      refine ⟨l2 ++ l1, ?_, ?_⟩
+      · simp only at e1 ⊢; rw [e2, e1, List.append_assoc]
+      · intro e he
+        rcases List.mem_append.mp he with h | h
+        · exact p2 e h
+        · exact p1 e h
+
+theorem ce_catchAll {α} {P} (m : CerM α) (d : α) (hm : CEmits P m) : CEmits P (CerM.catchAll m d) := by
+  intro t s
+  obtain ⟨l, e, p⟩ := hm t s
+  simp only [CerM.catchAll]
+  cases hr : m t s with
+  | mk r s1 =>
+    rw [hr] at e
+    cases r with
+    | ok a => exact ⟨l, e, p⟩
+    | error f => cases f <;> exact ⟨l, e, p⟩
+
+/-- **The stages before signing never issue a `C_Sign`** — for every token, whatever they answer
+    and however the stages end. -/
+theorem preSign_no_sign (ext : Externals) (a : CeremonyArgs) : CEmits NotSign (preSign ext a) := by
+  unfold preSign
+  split
+  · exact ce_pure _
+  · refine ce_bind _ _ (ce_lift _) (fun skr => ?_)
+    split
+    · exact ce_pure _
+    · refine ce_bind _ _ (ce_lift _) (fun req => ?_)
+      refine ce_bind _ _ (ce_catchAll _ _ (ce_bind _ _ (ce_liftTok _ (initPkcs11Modules_emits _ _ _ _))
+        (fun _ => ce_pure _))) (fun mods? => ?_)
+      split
+      · exact ce_pure _
+      · refine ce_bind _ _ (ce_liftTok _ (stageChain_emits _ _ _ _)) (fun _ => ?_)
+        refine ce_bind _ _ (ce_emit _) (fun _ => ?_)
+        refine ce_bind _ _ ?_ (fun go => ?_)
+        · unfold stageConfirm
+          split
+          · exact ce_pure _
+          · exact ce_bind _ _ (ce_emit _) (fun _ => ce_pure _)
+        · split <;> exact ce_pure _
+
+/-- when the stages before signing do not hand over to the signing stage, the run ends right
+    there: same outcome class, same final state -/
+theorem ends_before_signing (ext : Externals) (a : CeremonyArgs) (t : Token) (s : CerState)
+    (h : ∀ p, (preSign ext a t s).1 ≠ .ok (some p)) :
+    (ksrsigner ext a t s).2 = (preSign ext a t s).2 ∧ (ksrsigner ext a t s).1 ≠ .ok true := by
+  unfold ksrsigner ksrsignerCore
+  simp only [bind]
+  cases hp : preSign ext a t s with
+  | mk r s1 =>
+    cases r with
+    | error e => simp
+    | ok o =>
+      cases o with
+      | none => simp [pure]
+      | some p => exact absurd (by rw [hp]) (h p)
+
+/-- **C03, early failure.** For every token: if the failure precedes the signing stage — unknown
+    schema, unreadable or invalid previous SKR, missing / unparsable / invalid KSR, token
+    initialisation failure, failed chain check, declined confirmation — then no private-key
+    operation was performed at all: no `C_Sign` is among the token operations of the run. -/
+theorem early_failure_no_private_op (ext : Externals) (a : CeremonyArgs) (t : Token) (s : CerState)
+    (h : ∀ p, (preSign ext a t s).1 ≠ .ok (some p)) :
+    ∃ l : List (TokOp × TokAns), (ksrsigner ext a t s).2.tok.log = l ++ s.tok.log ∧
+      ∀ e ∈ l, isSignOp e.1 = false := by
+  rw [(ends_before_signing ext a t s h).1]
+  exact preSign_no_sign ext a t s
+
+/-- what "the failure precedes the signing stage" means, gate by gate: each of these makes
+    `preSign` end without handing over -/
+theorem early_failures (ext : Externals) (a : CeremonyArgs) (t : Token) (s : CerState)
+    (h : a.actions = none ∨ a.ksr = none ∨ (∃ e, a.ksr = some (.error e)) ∨
+      (∃ req, a.ksr = some (.ok req) ∧ validateRequest ext.verify a.now req a.requestPolicy ≠ .ok ()) ∨
+      (∃ e, stagePrev ext a = .error e) ∨ (a.force = false ∧ confirmed a.answer = false)) :
+    ∀ p, (preSign ext a t s).1 ≠ .ok (some p) := by
+  intro p hp
+  have hfull : preSign ext a t s = (.ok (some p), (preSign ext a t s).2) := Prod.ext hp rfl
+  obtain ⟨hact, hksr, hval, hprev, _, hconf⟩ := preSign_some ext a t s _ p hfull
+  rcases h with h | h | ⟨e, h⟩ | ⟨req, h, hv⟩ | ⟨e, h⟩ | ⟨hf, hc⟩
+  · rw [h] at hact; simp at hact
+  · rw [h] at hksr; simp at hksr
+  · rw [h] at hksr; simp at hksr
+  · rw [h] at hksr
+    simp only [Option.some.injEq, Except.ok.injEq] at hksr
+    subst hksr; exact hv hval
+  · rw [h] at hprev; simp at hprev
+  · rcases hconf with hc' | hc'
+    · rw [hf] at hc'; simp at hc'
+    · rw [hc] at hc'; simp at hc'
 
 /-! ## The confirmation is exact; exit statuses -/
 
